@@ -4,6 +4,7 @@ package main
 
 import (
 	"fmt"
+	"go/token"
 	"sort"
 	"strings"
 
@@ -17,7 +18,7 @@ func init() {
 		Explain: "Decides, for every write of non-constant data into an href or src attribute value (found by the lexer-state dataflow of the sink model, all extensions included): (G) every path to the write passes the true edge of Config.Unsafe or the false edge of html.IsDangerousURL(x); (O) the bytes written are exactly EscapeHTML(x) of that same tested value x (or derived from x only by functions of the non-decoding table), written raw — not through the decoding text writer — so no escape or character reference is resolved after the check; (P) the predicate's constant tables are the four schemes and five data:image exemptions, compared case-insensitively. Does NOT decide that the predicate's list suffices for every browser, leading-whitespace/control-character stripping, or percent-decoding semantics.",
 		Trusted: []string{"util.EscapeHTML does not decode", "non-decoding table: util.EscapeHTML, util.URLEscape(·, false)"},
 		Assumes: []string{"user-supplied renderers out of scope"},
-		Rules:   []func(*World, *Report){ruleURLSinks, ruleDangerousPredicate, ruleOptionValueStored, ruleSanitiserLoops},
+		Rules:   []func(*World, *Report){ruleURLSinks, ruleDangerousPredicate, ruleSchemeTestsUnconditional, ruleOptionValueStored, ruleSanitiserLoops, ruleRewritersReturnBuffer},
 	})
 }
 
@@ -246,6 +247,104 @@ func ruleDangerousPredicate(w *World, r *Report) {
 		} else {
 			r.Bad(key, w.FnPos(fn), "a match of this prefix does not lead to a true result")
 		}
+	}
+}
+
+// ruleSchemeTestsUnconditional (C04-P, path clause): the predicate answers "not dangerous" only after all four scheme
+// tests have failed (or through the data:image exemption).
+func ruleSchemeTestsUnconditional(w *World, r *Report) {
+	r.Rule("C04-Q", "Every path through html.IsDangerousURL that returns false has seen each of the four scheme tests — javascript:, vbscript:, file:, data: against the url argument itself — fail on that path, or has passed the data:image/ exemption (prefix data:image/ matched and one of the listed media types matched), or knows the url to be shorter than the shortest scheme (a fact len(url) < c with c <= 5). A length or colon-position shortcut that returns false earlier (url shorter than 'data:image/'; a switch on the index of ':' with a wrong case label) lets 'file:///x', 'data:,x' or 'vbscript:' through.")
+	fn := w.PkgFunc("renderer/html", "IsDangerousURL")
+	if fn == nil || fn.Blocks == nil || len(fn.Params) != 1 {
+		r.Unknown("html.IsDangerousURL", "", "function not found")
+		return
+	}
+	url := fn.Params[0]
+	schemes := []string{"javascript:", "vbscript:", "file:", "data:"}
+	// prefix test: a call with (url, constant) whose callee is a module helper or bytes.HasPrefix
+	prefixOf := func(v ssa.Value) (string, bool, bool) { // constant, subject is the url argument itself, ok
+		c, ok := v.(*ssa.Call)
+		if !ok || len(c.Common().Args) != 2 {
+			return "", false, false
+		}
+		s, ok := w.constBytes(c.Common().Args[1])
+		if !ok {
+			return "", false, false
+		}
+		return s, c.Common().Args[0] == ssa.Value(url), true
+	}
+	nPaths, nFalse := 0, 0
+	bad := ""
+	complete := EnumPaths(fn.Blocks[0], map[string]bool{}, isReturnBlock, func(p Path) {
+		nPaths++
+		last := p.Blocks[len(p.Blocks)-1]
+		ret := last.Instrs[len(last.Instrs)-1].(*ssa.Return)
+		val := resolveAlong(ret.Results[0], p.Blocks)
+		failed := map[string]bool{}
+		exempt, short := false, false
+		sawImage := false
+		note := func(cond ssa.Value, truth bool) {
+			for _, a := range condAtoms(cond, truth) {
+				if s, onURL, ok := prefixOf(a.V); ok {
+					if onURL && !a.Truth {
+						failed[s] = true
+					}
+					if onURL && a.Truth && s == "data:image/" {
+						sawImage = true
+					}
+					if !onURL && a.Truth && sawImage {
+						exempt = true // a media type matched behind data:image/
+					}
+				}
+				if bo, ok := a.V.(*ssa.BinOp); ok {
+					if l := lenOf(bo.X); l == ssa.Value(url) {
+						if c, isC := constInt(bo.Y); isC {
+							if (bo.Op == token.LSS && a.Truth && c <= 5) || (bo.Op == token.GEQ && !a.Truth && c <= 5) || (bo.Op == token.EQL && a.Truth && c == 0) {
+								short = true
+							}
+						}
+					}
+				}
+			}
+		}
+		for i := 0; i+1 < len(p.Blocks); i++ {
+			if iff, ok := p.Blocks[i].Instrs[len(p.Blocks[i].Instrs)-1].(*ssa.If); ok {
+				note(resolveAlong(iff.Cond, p.Blocks[:i+1]), p.Edges[i] == 0)
+			}
+		}
+		// the returned value on this path
+		if b, isC := constBool(val); isC {
+			if b {
+				return
+			}
+		} else {
+			// returned as the value of a last test: the path returns false when that test fails
+			note(val, false)
+			if _, _, ok := prefixOf(val); !ok {
+				if bad == "" {
+					bad = w.InstrPos(ret) + ": returns a value that is not a scheme test"
+				}
+				return
+			}
+		}
+		nFalse++
+		if exempt || short {
+			return
+		}
+		for _, sch := range schemes {
+			if !failed[sch] && bad == "" {
+				bad = fmt.Sprintf("%s: a path returns false without having tested %q against the url", w.InstrPos(ret), sch)
+			}
+		}
+	})
+	key := "IsDangerousURL: false only after every scheme test failed"
+	switch {
+	case !complete:
+		r.Unknown(key, w.FnPos(fn), "path bound exceeded")
+	case bad != "":
+		r.Bad(key, w.FnPos(fn), bad)
+	default:
+		r.OK(key, w.FnPos(fn), fmt.Sprintf("%d paths, %d of them can return false: each after all four tests failed or through the data:image exemption", nPaths, nFalse))
 	}
 }
 
